@@ -5,16 +5,15 @@ C14 — model of the STUN/TURN message codec of qxmpp:
 
 The model follows the code that exists, including its quirks:
 
-* `hmacCode` is the hand-written HMAC of QXmppUtils.cpp: the key is padded with `B - |key|` zero bytes
-  (`QByteArray(B - key.size(), 0)` is empty for a negative size) and only the first `B` bytes of the result
-  are used — a key longer than the block is NOT hashed first (RFC 2104 demands that), its tail is ignored.
+* `hmacCode` is the hand-written HMAC of QXmppUtils.cpp (as repaired by /repo commit a1928fd): a key longer than the
+  block is hashed first, then padded with zero bytes to the block size; the loops index `kpad[0..B)`.
 * `QDataStream` never fails: reading past the end yields 0 and consumes what was left (`rdU8/rdU16/rdU32`),
   `readRawData` copies what is there and leaves the rest of the destination untouched (`rdRaw` for a zero
   initialised destination, `rdResize` for `QByteArray::resize`d destinations, whose not-overwritten bytes are
-  *indeterminate* in C++ and modelled as the old content / zero; `tlvFits` tells when that can happen).
-* the decode loop never compares an attribute's length with what is left in the buffer, accepts a message
-  without MESSAGE-INTEGRITY under a key, skips everything but FINGERPRINT after MESSAGE-INTEGRITY, and returns
-  at FINGERPRINT without looking at what follows.
+  *indeterminate* in C++ and modelled as the old content / zero; since /repo commit df53ac0 the loop rejects an
+  attribute whose value does not lie inside the body, so no accepted packet gets there: `decode_accepted_fits`).
+* the decode loop accepts a message without MESSAGE-INTEGRITY under a key, skips everything but FINGERPRINT after
+  MESSAGE-INTEGRITY, and returns at FINGERPRINT without looking at what follows.
 * `QString::fromUtf8(const QByteArray &)` of Qt 5 cuts at the first NUL, drops a leading BOM and replaces
   malformed sequences (`Qx.Utf8.qtFromUtf8`); string attributes are held as the UTF-8 bytes of the QString.
 
@@ -35,9 +34,10 @@ open Qx Qx.Bytes Qx.Generated
 /-! ## HMAC and CRC as the code computes them -/
 
 /-- `generateHmac` of QXmppUtils.cpp over hash `H` with block size `B`:
-`kpad = key ++ zeros (B - |key|)`, and only `kpad[0..B)` is used. -/
+`kpad = (|key| > B ? H(key) : key) ++ zeros (B - |kpad|)`, and `kpad[0..B)` is used. -/
 def hmacCode (H : Bytes → Bytes) (B : Nat) (key text : Bytes) : Bytes :=
-  let k := (key ++ zeros (B - key.length)).take B
+  let k0 := if key.length > B then H key else key
+  let k := (k0 ++ zeros (B - k0.length)).take B
   H (k.map (· ^^^ 0x5c) ++ H (k.map (· ^^^ 0x36) ++ text))
 
 /-- RFC 2104 HMAC (keys longer than the block are hashed first) — the specification -/
@@ -407,7 +407,9 @@ def loop (H : Bytes → Bytes) (buf key : Bytes) (len : Nat) (done : Nat) (s : B
     let aType := r0.1
     let aLen := r1.1
     let pad := pad4 aLen
-    if miAt.isSome ∧ aType ≠ Stun.fingerprint then
+    -- the attribute value must lie within the message body (`return false` otherwise)
+    if done + 4 + aLen > len then none
+    else if miAt.isSome ∧ aType ≠ Stun.fingerprint then
       loop H buf key len (done + (4 + aLen + pad)) (r1.2.drop (aLen + pad)) m miAt
     else
       match attrStep H buf key done aType aLen r1.2 m miAt with
@@ -454,9 +456,9 @@ def fpInputAt (buf : Bytes) (off : Nat) : Bytes := setLen (buf.take (Stun.header
 /-! ## Does every attribute lie inside the packet? -/
 
 /-- plain TLV walk over the body (`fuel` ≥ number of attributes), stopping at the first FINGERPRINT (the decoder
-returns there): every attribute header, value and padding lies inside the bytes that are there.  When this is false the C++ decoder may have copied fewer bytes than an
-attribute announced, and the not-overwritten part of DATA / NONCE / RESERVATION-TOKEN / ICE-CONTROLL* values and of
-IPv6 addresses is indeterminate (uninitialised memory). -/
+returns there): every attribute header and value lies inside the bytes that are there (the padding of the last
+attribute may be cut off).  Before /repo commit df53ac0 the decoder accepted packets for which this is false and
+then exposed uninitialised memory; now every accepted packet satisfies it (`decode_accepted_fits`). -/
 def tlvFitsGo : Nat → Bytes → Bool
   | 0, s => s.isEmpty
   | fuel + 1, s =>
@@ -467,10 +469,9 @@ def tlvFitsGo : Nat → Bytes → Bool
       else
         let r0 := rdU16 s
         let r1 := rdU16 r0.2
-        let n := r1.1 + pad4 r1.1
-        if r1.2.length < n then false
+        if r1.2.length < r1.1 then false
         else if r0.1 = Stun.fingerprint then true
-        else tlvFitsGo fuel (r1.2.drop n)
+        else tlvFitsGo fuel (r1.2.drop (r1.1 + pad4 r1.1))
 
 def tlvFits (buf : Bytes) : Bool := tlvFitsGo buf.length (buf.drop Stun.headerSize)
 
@@ -561,16 +562,7 @@ def exampleMsg : Msg :=
     realm := some [101, 120, 97, 109, 112, 108, 101, 46, 111, 114, 103]  /- "example.org" -/, username := some [97, 108, 105, 99, 101, 58, 98, 195, 182, 98]  /- "alice:böb" -/,
     iceControlling := [8, 7, 6, 5, 4, 3, 2, 1] }
 
-/-- DATA announces 1000 bytes, 4 are present -/
-def overrunPacket : Bytes :=
-  [0x00, 0x01, 0x00, 0x08, 0x21, 0x12, 0xa4, 0x42, 0, 0, 0, 0, 0, 0, 0, 0, 0, 0, 0, 0,
-   0x00, 0x13, 0x03, 0xe8, 0x41, 0x42, 0x43, 0x44]
-
-/-- what the decoder makes of it: accepted, DATA of 1000 bytes of which 4 come from the packet -/
-def overrunResult : Msg :=
-  { Msg.fresh with type := 1, data := some (rdResize [] 1000 [0x41, 0x42, 0x43, 0x44]).1 }
-
-/-- a Binding request with USERNAME "abcd" -/
-def bitflipMsg : Msg := { type := 1, username := some [0x61, 0x62, 0x63, 0x64] }
+/-- a Binding request with an empty USERNAME -/
+def bitflipMsg : Msg := { type := 1, username := some [] }
 
 end Qx.C14
